@@ -110,6 +110,15 @@ CHECKS.update({
     ),
 })
 
+CHECKS.update({
+    "C16": (
+        "exhaustive enumeration of the function classes (DJ: all constant/balanced tables on 1..3 bits; BV: all secrets on 1..5 bits; Simon: all periods on 2..4 bits) x argument shapes x syntactic forms, plus Hypothesis samples on 4 bits; oracle: exact output distribution from own state-vector simulator",
+        "Every function of the enumerated classes is written in several syntactic forms and argument shapes, compiled, wrapped in the algorithm and simulated exactly: constant -> P(0..0)=1, balanced -> P(0..0)=0, BV -> P(secret)=1, Simon -> support orthogonal to the period and uniform; decode_output/decode_counts must report the outcome in the argument type. Enumerated classes are exhaustive; forms and 4-bit functions are sampled.",
+        "Trusts the dense simulator (validated against qiskit) with tolerance 1e-9; black boxes compiled with default settings.",
+        "DESIGN.md section 3 C16",
+    ),
+})
+
 NOT_YET = "check not built yet in this session (work in progress; see DESIGN.md section 3)"
 
 
